@@ -479,6 +479,60 @@ pub fn lattice_triangles(n: i64, l: i64) -> Vec<[P; 3]> {
 }
 
 // ------------------------------------------------------------------------------------------
+// ENUMERATED families "en:<kx>x<ky>:<modeA>[/<modeB>]:<sx>_<sy>:<s|k>": EVERY ordered pair of
+// subsets of the units (cells in mode 4, triangles otherwise) of a small triangulated lattice,
+// addressed by an index (ENUM_POS, set by the recording loops): index = maskA * 2^n + maskB.
+// B's lattice may be shifted by (sx, sy) half cells (cells have side 4). `s`: collinear vertices
+// removed (vertex-on-edge touches), `k`: kept. Same construction as `cx`, no random choice in
+// the region: the recording loops walk the index range, so a stride-1 run is exhaustive.
+pub static ENUM_POS: std::sync::atomic::AtomicU64 = std::sync::atomic::AtomicU64::new(0);
+
+pub struct EnumFam {
+    pub kx: i64,
+    pub ky: i64,
+    pub mode_a: u32,
+    pub mode_b: u32,
+    pub shift: P,
+    pub simp: bool,
+}
+
+pub fn enum_parse(name: &str) -> Option<EnumFam> {
+    let f: Vec<&str> = name.strip_prefix("en:")?.split(':').collect();
+    if f.len() != 4 {
+        panic!("enumerated family: en:<kx>x<ky>:<modeA>[/<modeB>]:<sx>_<sy>:<s|k>, got {}", name);
+    }
+    let g: Vec<i64> = f[0].split('x').map(|v| v.parse().expect("grid")).collect();
+    let m: Vec<u32> = f[1].split('/').map(|v| v.parse().expect("mode")).collect();
+    let sh: Vec<i64> = f[2].split('_').map(|v| v.parse().expect("shift")).collect();
+    Some(EnumFam { kx: g[0], ky: g[1], mode_a: m[0], mode_b: *m.last().unwrap(), shift: (2 * sh[0], 2 * sh[1]), simp: f[3] == "s" })
+}
+
+fn enum_units(kx: i64, ky: i64, mode: u32) -> u32 {
+    (kx * ky) as u32 * match mode { 4 => 1, 2 => 4, _ => 2 }
+}
+
+/// number of operand pairs of an enumerated family
+pub fn enum_total(name: &str) -> u64 {
+    let f = enum_parse(name).expect("enumerated family");
+    1u64 << (enum_units(f.kx, f.ky, f.mode_a) + enum_units(f.kx, f.ky, f.mode_b))
+}
+
+fn enum_operand(kx: i64, ky: i64, mode: u32, off: P, mask: u64, simp: bool) -> Vec<(Vec<P>, Vec<Vec<P>>)> {
+    let tris = complex(kx, ky, mode, 4, off);
+    let per = if mode == 4 { 2 } else { 1 };
+    let sel: Vec<bool> = (0..tris.len()).map(|i| (mask >> (i / per)) & 1 == 1).collect();
+    group(rings(&tris, &sel), simp)
+}
+
+pub fn enum_pair(name: &str) -> (Vec<(Vec<P>, Vec<Vec<P>>)>, Vec<(Vec<P>, Vec<Vec<P>>)>) {
+    let f = enum_parse(name).expect("enumerated family");
+    let (na, nb) = (enum_units(f.kx, f.ky, f.mode_a), enum_units(f.kx, f.ky, f.mode_b));
+    let idx = ENUM_POS.load(std::sync::atomic::Ordering::SeqCst) % (1u64 << (na + nb));
+    let (ma, mb) = (idx >> nb, idx & ((1u64 << nb) - 1));
+    (enum_operand(f.kx, f.ky, f.mode_a, (0, 0), ma, f.simp), enum_operand(f.kx, f.ky, f.mode_b, f.shift, mb, f.simp))
+}
+
+// ------------------------------------------------------------------------------------------
 // family "frames": axis-parallel frames (rectangles with rectangular holes, optional island)
 // against rectangles that ABUT a boundary edge of the frame from one side, overlap it, or float
 // freely: operands sharing boundary segments, pieces directly above shared segments.
